@@ -135,8 +135,14 @@ def random_ops(desc, rng: random.Random):
     return out
 
 
-def build(M, desc, ops=None, param_override=None, node_names=None, net_name=None):
+def build(M, desc, ops=None, param_override=None, node_names=None, net_name=None, reuse=None):
+    """reuse: {id: existing object} - those elements/nodes are not created anew (the same element
+    objects may live on in another network, or in the same one after a replacement)."""
     nodes, links, origins, dests = make_objects(M, desc, param_override, node_names)
+    for table in (nodes, links, origins, dests):
+        for k in table:
+            if reuse and k in reuse:
+                table[k] = reuse[k]
     net = M.Network(name=net_name)
     linkd = {l["id"]: l for l in desc["links"]}
     orgd = {o["id"]: o for o in desc["origins"]}
